@@ -58,7 +58,10 @@ def strategy(tier, unit):
         "cellshift": st.sampled_from([[0, 0, 0], [0, 0, 0], [-3, 1, -2], [2, -3, 3]]), "name": st.from_regex(r"[A-Z][A-Z0-9]{0,3}", fullmatch=True)})
     return st.fixed_dictionaries({
         "k": st.just("pdb"), "sgno": st.integers(1, 230), "placeholders": st.booleans(),
-        "abc": st.tuples(S.fl(5, 90), S.fl(5, 90), S.fl(5, 90)).map(list), "ang": st.tuples(S.fl(65, 115), S.fl(91, 120), S.fl(-1, 1)).map(list),
+        # edges from small-molecule size to virus-capsid size; the oblique angle anywhere from a hair off 90 to 120
+        "abc": st.one_of(st.tuples(S.fl(5, 90), S.fl(5, 90), S.fl(5, 90)), st.tuples(S.fl(5, 90), S.fl(5, 90), S.fl(5, 90)),
+                         st.tuples(S.fl(2.5, 600), S.fl(2.5, 600), S.fl(2.5, 600)), st.tuples(S.fl(300, 600), S.fl(300, 600), S.fl(300, 600))).map(list),
+        "ang": st.tuples(st.one_of(S.fl(65, 115), S.fl(89, 91)), st.one_of(S.fl(91, 120), S.fl(91, 120), S.fl(90.01, 91)), S.fl(-1, 1)).map(list),
         "origin": st.one_of(st.just([0.0, 0.0, 0.0]), st.tuples(S.fl(-0.5, 0.5), S.fl(-0.5, 0.5), S.fl(-0.5, 0.5)).map(list),
                             st.sampled_from([[0.25, 0.0, 0.5], [0.0, 0.25, 0.0]])),
         "atoms": st.lists(atom, min_size=1, max_size=8)})
